@@ -395,11 +395,14 @@ class Interp:
                 fr.env = self.restore(cterm, *A, *A)
             return fa
         if fa != fb:
-            # break/continue on one side only: keep the fall-through side
+            # break/continue on one side only: keep the fall-through side; the rest of the loop body runs under the
+            # negated condition
             if fa == Flow.NORMAL:
                 fr.env = self.restore(cterm, *A, *A)
+                self.guards.append(cterm)
             else:
                 fr.env = self.restore(cterm, *B, *B)
+                self.guards.append(mk("not", cterm))
             return Flow.NORMAL
         fr.env = self.restore(cterm, *A, *B)
         return fa
@@ -484,6 +487,8 @@ class Interp:
             return [K(k) for k in it.items]
         if isinstance(it, Arr) and it.ndim == 1:
             return [Val(c) for c in it.cols]
+        if isinstance(it, Frame) and it.row and it.order is not None:
+            return [Val(it.cols[c]) for c in it.order]  # iterating a row yields its values
         if isinstance(it, Val) and getattr(it, "arange", None) is not None:
             try:
                 a, b, c = (pyval(x) for x in it.arange)
@@ -507,7 +512,9 @@ class Interp:
         if items is not None and len(items) <= MAX_UNROLL:
             for item in items:
                 self.assign(st.target, item, fr, st)
+                g0 = len(self.guards)
                 flow = self.exec_block(st.body, fr)
+                del self.guards[g0:]
                 if flow == Flow.BREAK:
                     break
                 if flow in (Flow.RETURN, Flow.RAISE):
@@ -531,12 +538,13 @@ class Interp:
         self.havoc(fr, assigned, st, "loop")
         self.assign(st.target, elem, fr, st)
         self.loop_depth += 1
+        g0 = len(self.guards)
         self.guards.append(call("in_loop", const(getattr(st, "lineno", 0))))
         nret = len(fr.returns)
         try:
             self.exec_block(st.body, fr)
         finally:
-            self.guards.pop()
+            del self.guards[g0:]
             self.loop_depth -= 1
         self.havoc(fr, assigned - target_names(st.target), st, "after-loop", keep_frames=True)
         # after the loop the target holds the *last* element only
@@ -554,11 +562,12 @@ class Interp:
         cond = self.eval(st.test, fr)
         self.record("loop", "while", [cond], {}, st)
         self.loop_depth += 1
+        g0 = len(self.guards)
         self.guards.append(call("in_loop", const(getattr(st, "lineno", 0))))
         try:
             self.exec_block(st.body, fr)
         finally:
-            self.guards.pop()
+            del self.guards[g0:]
             self.loop_depth -= 1
         self.havoc(fr, assigned, st, "after-loop", keep_frames=True)
         return Flow.NORMAL
